@@ -420,6 +420,7 @@ class Interp:
         self.models = models.build_table(self)
         self.fid = 0
         self.defer_asserts = True
+        self.abbrev_returns = True
         self.lemma_fn = None
         self.precise_casts = False
         self.constmem = prog.constmem
@@ -960,8 +961,37 @@ class Interp:
         else:
             st.borrows[g.cell] = (max(0, sh - 1), mu)
 
+    def _abbrev_ret(self, st, fr, rv):
+        """Name large scalar results of crate functions (keeps terms and queries small; the definition is in the pc)."""
+        if not self.abbrev_returns:
+            return rv
+        nm = fr.body.name.split("::")[-1]
+        def big(e):
+            return is_sym(e) and z3.is_real(e) and e.num_args() > 0 and _size(e, 5) > 5
+        if big(rv):
+            return self.abbrev(st, rv, nm)
+        if isinstance(rv, Tup) and any(big(x) for x in rv.items):
+            return Tup([self.abbrev(st, x, nm) if big(x) else x for x in rv.items])
+        if isinstance(rv, Enum) and not is_sym(rv.disc):
+            pay = {}
+            ch = False
+            for k, fs in rv.pay.items():
+                nf = []
+                for x in fs:
+                    if big(x):
+                        nf.append(self.abbrev(st, x, nm))
+                        ch = True
+                    else:
+                        nf.append(x)
+                pay[k] = tuple(nf)
+            if ch:
+                return Enum(rv.ty, rv.disc, pay)
+        return rv
+
     def do_return(self, st, base, rv, work):
         fr = st.frames.pop()
+        if isinstance(fr, Frame) and len(st.frames) > base:
+            rv = self._abbrev_ret(st, fr, rv)
         if fr.hook is not None:
             actions = fr.hook(st, rv)
             return self.apply_actions(st, actions, fr.ret_to, work, base)
@@ -1442,6 +1472,20 @@ def linform(x):
             return None
         return ({kk: c / dv for kk, c in lf[0].items()}, lf[1] / dv)
     return None
+
+
+def _size(e, limit):
+    n = 0
+    stack = [e]
+    seen = set()
+    while stack and n <= limit:
+        x = stack.pop()
+        if x.get_id() in seen:
+            continue
+        seen.add(x.get_id())
+        n += 1
+        stack.extend(x.children())
+    return n
 
 
 class PanicMarker:
